@@ -512,6 +512,7 @@ func main() {
 	} else {
 		fail("AccountDB.Prepare not found")
 	}
+	sort.Strings(assigns) // the order of the assignments is immaterial
 	fmt.Fprintf(&b, "def prepareAssigns : List String := %s\n\n", leanList(assigns))
 
 	// ---- VMExecutor.Execute and contractExecutor.Execute
